@@ -142,6 +142,57 @@ pub fn run(opts: &Opts) -> i32 {
             }
         }
     }
+    // (1d) definite type errors where the checker SYNTHESISES (no expected type reaches the term):
+    // the generated core programs are fully annotated and exercise the checking direction only
+    {
+        let pre = pipeline::prelude();
+        let mut probes: Vec<(String, String, bool)> = Vec::new(); // (name, source, must be accepted)
+        let ctors = ["A", "B", "C", "D"];
+        for n in 2..=4usize {
+            let decl: String = ctors[..n].iter().map(|c| format!(" | +{c} : Unit")).collect();
+            for odd in 0..=n {
+                // arm `odd` (1-based; 0 = none) returns a string where the others return an integer
+                let arms: String = (1..=n).map(|j| format!(" | +{}(_) => ret {}", ctors[j - 1], if j == odd { "\"s\"".to_string() } else { format!("({j} : Int64)") })).collect();
+                for (ctx, wrap) in [
+                    ("thunk-bound-by-let", "let f = { fn (x : Zd) => match xARMS end } in\n  ! (process/exit) (0 : Int64)"),
+                    ("function-applied", "do r <- (fn (x : Zd) => match xARMS end) (+A() : Zd);\n  ! (process/exit) (0 : Int64)"),
+                    ("inside-a-block-definition", "begin\n    let g = { fn (x : Zd) => do u <- ret (); match xARMS end } that\n    ! (process/exit) (0 : Int64)\n  end"),
+                ] {
+                    let body = wrap.replace("ARMS", &arms);
+                    probes.push((format!("match-arms n={n} odd={odd} {ctx}"), format!("{pre}begin\n  let Zd = data{decl} end that\n  {body}\nend\n"), odd == 0));
+                }
+            }
+        }
+        for (name, body, ok) in [
+            ("application-argument", "let g = { fn (x : Int64) => ret x } in\n  do y <- ! g \"s\";\n  ! (process/exit) (0 : Int64)", false),
+            ("application-argument-control", "let g = { fn (x : Int64) => ret x } in\n  do y <- ! g (1 : Int64);\n  ! (process/exit) y", true),
+            ("pair-pattern-on-a-non-pair", "let v = (1 : Int64) in\n  let (a, b) = v in\n  ! (process/exit) a", false),
+            ("pair-pattern-control", "let v = ((1 : Int64), (2 : Int64)) in\n  let (a, b) = v in\n  ! (process/exit) b", true),
+            ("force-of-a-non-thunk", "let v = (1 : Int64) in\n  do y <- ! v;\n  ! (process/exit) (0 : Int64)", false),
+            ("do-bindee-not-a-returner", "let g = { fn (x : Int64) => ret x } in\n  do y <- ! g;\n  ! (process/exit) (0 : Int64)", false),
+            ("exit-code-of-the-wrong-type", "let v = \"s\" in\n  ! (process/exit) v", false),
+            ("second-component-of-a-pair", "let g = { fn (p : Int64 * Int64) => ret p } in\n  do y <- ! g ((1 : Int64), \"s\");\n  ! (process/exit) (0 : Int64)", false),
+            ("constructor-argument", "begin\n    let Zb = data | +Box : Int64 end that\n    let v = (+Box(\"s\") : Zb) in\n    ! (process/exit) (0 : Int64)\n  end", false),
+            ("constructor-argument-control", "begin\n    let Zb = data | +Box : Int64 end that\n    let v = (+Box((3 : Int64)) : Zb) in\n    ! (process/exit) (0 : Int64)\n  end", true),
+        ] {
+            probes.push((name.to_string(), format!("{pre}begin\n  {body}\nend\n"), ok));
+        }
+        let mut session = CompilerSession::default();
+        for (name, text, must_accept) in probes {
+            let path = opts.out.join("probe-synthesis.zy");
+            let analyzed = pipeline::analyze_text(&mut session, &path, &text);
+            let class = analyzed.verdict.class();
+            let accepted = class == "accept";
+            sink.count(&format!("synthesis_probe_{}", if accepted { "accept" } else { "reject" }));
+            if accepted != must_accept {
+                sink.violation(
+                    if must_accept { "c03-well-typed-program-rejected" } else { "c03-definite-error-accepted" },
+                    serde_json::json!({"probe": name, "verdict": class, "source": text}),
+                );
+            }
+            sink.case(&format!("# synthesis probe {}", name.replace(' ', "_")), &class);
+        }
+    }
     // (2) generated ZCore programs: acceptance + behaviour vs the Lean model (checker + erasure +
     // machine), the real linked program on the Lean machine, and typed mutants
     generated(opts, &mut sink);
